@@ -266,8 +266,7 @@ func hsScenario(spec *hsSpec) *Scenario {
 		},
 		Final: func(m *Sim, x *Exec) {
 			generalVerdicts(m, x, true)
-			o := allMonitors()
-			o.SackComplete = false
+			o := monOpts{Cksum: true, Kind: true}
 			if spec.SNAP {
 				o.Snap = true
 				o.SnapZC = [2]bool{spec.A.ZeroChecksum, spec.B.ZeroChecksum}
